@@ -237,6 +237,7 @@ int MxEndpoint::create(const EpCfg &c, const sslKeys_t *keys) {
     if (cfg.ems > 0) { opt.extendedMasterSecret = 1; }
     if (cfg.ticket_resumption) { opt.ticketResumption = 1; }
     if (cfg.fallback_scsv) { opt.fallbackScsv = 1; }
+    if (cfg.max_frag > 0 && !cfg.server) { opt.maxFragLen = cfg.max_frag; }
     if (cfg.max_early_data > 0) { opt.tls13SessionMaxEarlyData = (psSize_t) cfg.max_early_data; }
     if (!cfg.groups.empty()) {
         // the same list also restricts the TLS <= 1.2 / DTLS curves (sslSessOpts_t.ecFlags; NIST curves only: X25519 is a TLS 1.3 group here)
